@@ -187,6 +187,12 @@ class SimActorSystem:
         if dst is None:
             self.log("send-to-unknown", src.name if src else "-", type(msg).__name__)
             return
+        if dst.started_at is None and dst.dead and dst.cls is not None and src is not None and src.cls is not None:
+            # the actor could never be created (no actor system accepts it): what was sent to it comes back as poison
+            # ("Child Aborted", thespian/system/systemCommon.py), from the system, not from the child
+            self.log("send-to-aborted-child", src.name, type(msg).__name__)
+            self.push(self.clock.now + self._latency(src, src), "sysmsg", (src.aid, th.PoisonMessage(msg, "Child Aborted"), src.host.admin if src.host else self.external.addr))
+            return
         payload = msg
         if self.pickle_messages:
             try:
@@ -231,7 +237,10 @@ class SimActorSystem:
             cell.dead = True
             cell.started_at = None
             self.log("create-failed", cls.__name__, str(reqs))
-            self.push(self.clock.now + self._latency(parent, parent), "child-aborted", (parent.aid if parent else 0, cell.aid))
+            # (real Thespian reports the exit twice in this situation, see tools/thespian_conformance.py)
+            t_abort = self.clock.now + self._latency(parent, parent)
+            self.push(t_abort, "child-aborted", (parent.aid if parent else 0, cell.aid))
+            self.push(t_abort + 2 * self.base_latency[1], "child-aborted", (parent.aid if parent else 0, cell.aid))
             return cell.addr
         delay = self.net.uniform(*self.spawn_delay)
         cell.started_at = self.clock.now + delay
